@@ -178,6 +178,12 @@ def gen(rng, idx, tier):
                             {"name": "caret_2", "x": (200 if ui == k else 300) + 10 * ui, "y": 0}]
         stratum = "carets_coincide_in_one_master"
     multi = False
+    if stratum == "default" and rng.random() < 0.05:
+        sub = sub_range_family(rng)
+        if sub is not None:
+            ds, varfea = sub, True
+            multi = True
+            stratum = "sub_range_variable_font"
     if want_multi and stratum == "default" and len(ds["axes"]) == 2:
         # a designspace that defines several variable fonts: the whole space, and one axis alone
         # with the other axis left at its default (that font uses a subset of the sources; the
@@ -217,6 +223,36 @@ def categories_with_mark_kerning(rng, ds):
         u["kerning"].append(pair + [-15 - 10 * ui])
     ds.setdefault("meta", {})["mark_kerning"] = {"pair": [m, b] if swap else [b, m]}
     return True
+
+
+def sub_range_family(rng):
+    """Three full masters on one axis (user = design 100 / 200 / 300, default 100) and ONE
+    variable font that covers 200..300 with its own default at 200; one attaching anchor exists
+    in the masters at 200 and 300 only - all masters of that variable font have it."""
+    ds = masters.family(rng, n_axes=1, n_masters=3, default_pos="min", axis_map=False, sparse=False,
+                        n_glyphs=rng.choice([4, 5, 6]), kerning="aligned", anchors=True,
+                        missing_glyph=False, extra_glyph=False, rules=0, comp_2x2=False,
+                        kinds=rng.choice([["line", "curve"], ["line", "qcurve"]]),
+                        coord_mode="int", kern_values="int", shuffle_sources=False)
+    if not snap_axes_to_integers(ds) and any(a.get("map") for a in ds["axes"]):
+        return None
+    ax = ds["axes"][0]
+    locs = sorted({s_["location"][ax["name"]] for s_ in ds["sources"] if not s_.get("layerName")})
+    if len(locs) != 3 or ax["default"] != locs[0]:
+        return None
+    di = masters.default_source_index(ds)
+    dflt_ufo = ds["ufos"][ds["sources"][di]["ufo"]]
+    cands = [(g["name"], a["name"]) for g in dflt_ufo["glyphs"] for a in g["anchors"]
+             if not a["name"].startswith("_") and a["name"] in ("top", "bottom", "ogonek")]
+    if cands:
+        gname, aname = rng.choice(cands)
+        for g in dflt_ufo["glyphs"]:
+            if g["name"] == gname:
+                g["anchors"] = [a for a in g["anchors"] if a["name"] != aname]
+        ds.setdefault("meta", {})["anchor_absent_from_designspace_default"] = [gname, aname]
+    ds["variableFonts"] = [{"name": "VF-Heavy", "axisSubsets": [
+        {"name": ax["name"], "range": [locs[1], locs[1], locs[2]]}]}]
+    return ds
 
 
 def prefilter_anchors(rng, ds):
@@ -313,11 +349,14 @@ def run(case):
                 buf = io.BytesIO()
                 res_[vfd["name"]].save(buf)
                 ranged = [sub["name"] for sub in vfd["axisSubsets"] if "value" not in sub]
+                limits = {sub["name"]: sub["range"] for sub in vfd["axisSubsets"] if "range" in sub}
                 idx = []
                 for si_, src_ in enumerate(ds["sources"]):
                     full = V.full_location(ds["axes"], src_["location"])
                     dflt = V.full_location(ds["axes"], {})
-                    if all(full[n_] == dflt[n_] for n_ in axes_by_name if n_ not in ranged):
+                    ul_ = user_location(ds, src_["location"])
+                    if all(full[n_] == dflt[n_] for n_ in axes_by_name if n_ not in ranged) and all(
+                            lim[0] <= ul_[axes_by_name[n_]["tag"]] <= lim[2] for n_, lim in limits.items()):
                         idx.append(si_)
                 targets.append((vfd["name"], buf.getvalue(), idx,
                                 [axes_by_name[n_]["tag"] for n_ in ranged]))
